@@ -218,10 +218,15 @@ def inputs_for(prop, tier):
         for interval in (60, 120) if q else (40, 60, 120, 250):
             items.append({"pattern": "sync", "interval_ms": interval, "observe": 10})
             items.append({"pattern": "sync-busy", "interval_ms": interval, "observe": 8})
+            # one periodic fsync fails: the ticks after it go on
+            items.append({"pattern": "sync-fault", "interval_ms": interval, "observe": 10})
         for interval, jitter in ((150, 0.0), (200, 0.3)):
             items.append({"policy": "always", "pattern": "frag-fault", "interval_ms": interval, "jitter": jitter, "observe": 5})
             # a trigger crossed by deletes alone, after the task has already checked a few times and found nothing
             items.append({"policy": "always", "pattern": "late-del", "interval_ms": interval, "jitter": jitter, "observe": 4})
+            # a trigger that is already exceeded when the store is opened (left by an earlier incarnation), no client action
+            items.append({"policy": "always", "pattern": "frag-reopen", "interval_ms": interval, "jitter": jitter, "observe": 3})
+            items.append({"policy": "never", "pattern": "frag-reopen", "interval_ms": interval, "jitter": jitter, "observe": 3})
         # the policy does not depend on the time of day: the same crossing at the first, a middle and the last hour
         for hour in (0, 12, 22, 23):
             items.append({"policy": "always", "pattern": "frag", "interval_ms": 100, "jitter": 0.0, "observe": 3, "hour": hour})
